@@ -4,6 +4,7 @@ import Ecal.Lemmas.C08Quote
 import Ecal.Lemmas.C08Minimal
 import Ecal.Lemmas.C08QuoteReal
 import Ecal.Lemmas.C08Templates
+import Ecal.Lemmas.C08Splice
 /-!
 # C08 — formatting preserves program meaning and is idempotent
 
@@ -167,6 +168,65 @@ theorem mul_right_brackets_witness_div :
       run realPowers 10 0 (printToks realPowers realExc e) = some (e', []) ∧ e' ≠ e :=
   ⟨Expr.bin iTimes (Expr.atom 0) (Expr.bin iDiv (Expr.atom 1) (Expr.atom 2)),
    Expr.bin iDiv (Expr.bin iTimes (Expr.atom 0) (Expr.atom 1)) (Expr.atom 2), by decide, by decide, by decide⟩
+
+/-! ## the known finding `mul-right-brackets`, made precise -/
+
+/-- the exception of the real rule only relates operators of equal binding -/
+theorem real_exc_equal : ∀ K k, realExc K k = true → realPowers.bp K = realPowers.bp k := by
+  intro K k h
+  simp only [realExc, Bool.and_eq_true, Bool.or_eq_true, decide_eq_true_eq] at h
+  obtain ⟨hK, hk⟩ := h
+  subst hK
+  rcases hk with hk | hk <;> subst hk <;> decide
+
+/-- **What the parser reads for `x * R` printed without brackets** (R a product / quotient whose chain of
+    multiplicative operators is pure, fix C08-product-chain-brackets): exactly the SPLICED tree — `x` multiplied
+    into the leftmost operand of `R`'s chain — provided no further exception occurs in it.
+    (`_partial`: one exception at the root of the expression; nested ones are covered by the correspondence run,
+    `eqm=ok`.) -/
+theorem mul_right_reads_spliced_partial (x R : Expr)
+    (hpure : chainPure realPowers realExc iTimes (realPowers.bp iTimes) R = true)
+    (hfree : hasExc realPowers realExc (splice realPowers realExc iTimes x R) = false) :
+    ∃ fuel, run realPowers fuel 0 (printToks realPowers realExc (.bin iTimes x R)) =
+      some (splice realPowers realExc iTimes x R, []) := by
+  obtain ⟨fuel, hf⟩ := print_parse_expr_partial _ hfree
+  refine ⟨fuel, ?_⟩
+  have := splice_print realPowers realExc iTimes real_exc_equal x R hpure
+  simp only [printToks] at hf ⊢
+  rw [← this]; exact hf
+
+/-- `7 * ((3 * 2) / 2)` is read back as `((7 * 3) * 2) / 2` -/
+example : run realPowers 20 0 (printToks realPowers realExc
+      (.bin iTimes (.atom 0) (.bin iDiv (.bin iTimes (.atom 1) (.atom 2)) (.atom 3)))) =
+    some (.bin iDiv (.bin iTimes (.bin iTimes (.atom 0) (.atom 1)) (.atom 2)) (.atom 3), []) := by decide
+
+/-- **Value preserved up to re-association of `*` and `/`**: in every interpretation in which the product
+    re-associates with product and quotient (`a * (b * c) = (a * b) * c`, `a * (b / c) = (a * b) / c` — true
+    for real numbers, true for floats up to rounding), the spliced tree has the value of the original. Together
+    with `mul_right_reads_spliced_partial`: formatting `x * (pure chain)` does not change what it computes. -/
+theorem mul_right_value_preserved {α : Type} (A : Alg α)
+    (hmul : ∀ a b c, A.op iTimes a (A.op iTimes b c) = A.op iTimes (A.op iTimes a b) c)
+    (hdiv : ∀ a b c, A.op iTimes a (A.op iDiv b c) = A.op iDiv (A.op iTimes a b) c) (x R : Expr) :
+    eval A (splice realPowers realExc iTimes x R) = eval A (.bin iTimes x R) := by
+  apply splice_value A realPowers realExc iTimes _ x R
+  intro k hk a b c
+  simp only [realExc, Bool.and_eq_true, Bool.or_eq_true, decide_eq_true_eq] at hk
+  rcases hk.2 with rfl | rfl
+  · exact hmul a b c
+  · exact hdiv a b c
+
+/-- non-vacuity: integers with exact division fail the law, rationals satisfy it; here the trivial algebra of
+    operator counts (`op _ a b = a + b + 1`) satisfies both laws -/
+example : eval (⟨fun _ => 0, fun _ a b => a + b + 1, fun _ a => a + 1⟩ : Alg Nat)
+      (splice realPowers realExc iTimes (.atom 0) (.bin iDiv (.atom 1) (.atom 2))) =
+    eval ⟨fun _ => 0, fun _ a b => a + b + 1, fun _ a => a + 1⟩ (.bin iTimes (.atom 0) (.bin iDiv (.atom 1) (.atom 2))) :=
+  mul_right_value_preserved _ (by intros; show _ + (_ + _ + 1) + 1 = _ + _ + 1 + _ + 1; omega) (by intros; show _ + (_ + _ + 1) + 1 = _ + _ + 1 + _ + 1; omega) _ _
+
+/-- **With `//` or `%` on the chain the brackets are kept** (the defect repaired by C08-product-chain-brackets:
+    `7 * ((3 % 2) / 2)` was printed `7 * 3 % 2 / 2`): the rule parenthesises, and the tree is read back unchanged. -/
+example : let e := Expr.bin iTimes (.atom 0) (.bin iDiv (.bin (infixOps.findIdx (·.1 = "modint")) (.atom 1) (.atom 2)) (.atom 3))
+    hasExc realPowers realExc e = false ∧ run realPowers 20 0 (printToks realPowers realExc e) = some (e, []) := by
+  decide
 
 /-! ## string literals -/
 
